@@ -34,6 +34,10 @@ class Env:
         self.procs: Dict[str, Any] = {}
 
     def sample(self, site_class: str, site: str, who: Optional[Any]) -> None:
+        if who is None and self.loop.nest_depth > 0:
+            # code that is no process, run by the loop while a step sits in a nested execute(): that step has neither
+            # returned nor yielded, so what such code observes is not laid down
+            return
         cur = plumpy.Process.current()
         self.records.append((site_class, site, who.NAME if who is not None else '-', cur.NAME if cur is not None else None))
 
@@ -66,7 +70,7 @@ class Strict(plumpy.Process):
 def failed_construction(loop: Any) -> bool:
     try:
         Strict(inputs={'x': 'not an int'}, pid='strict', loop=loop)
-    except ValueError:
+    except Exception:  # noqa: BLE001 - however the refusal is worded
         return True
     return False
 
